@@ -251,7 +251,8 @@ fn numbers_close(a: &Value, b: &Value) -> bool {
         (_, _, Some(x), Some(y)) => x == y,
         _ => {
             match (a.as_f64(), b.as_f64()) {
-                (Some(x), Some(y)) => x == y || (x - y).abs() <= 1e-6 * x.abs().max(y.abs()),
+                // (the shortest text of a subnormal f32 has few digits: equal as f32 is equality for a field of that type)
+                (Some(x), Some(y)) => x == y || (x - y).abs() <= 1e-6 * x.abs().max(y.abs()) || (x as f32).to_bits() == (y as f32).to_bits(),
                 _ => false,
             }
         }
